@@ -397,10 +397,12 @@ def pStructDeclaratorListLoop (self : Self) (acc : List DeclInfo) : P (List Decl
 
 /-- `_parse_struct_declarator` -/
 def pStructDeclarator (self : Self) : P DeclInfo := do
-  if (← accept "COLON").isSome then
+  match ← accept "COLON" with
+  | some colonTok =>
     let bitsize ← self .conditionalExpression
-    pure { decl := emptyTypeDecl, bitsize := bitsize }
-  else
+    -- an unnamed bit-field takes the coordinate of its colon (fix: it had none)
+    pure { decl := mk .TypeDecl (some (← tokCoord colonTok)) [.none, .none, .none, .none], bitsize := bitsize }
+  | none =>
     let (decl, _) ← self (.anyDeclarator false false)
     if decl.isNone then crash .assertion "_parse_declarator: decl is not None" else
     if (← accept "COLON").isSome then
